@@ -127,6 +127,17 @@ PROPS = {
         ],
         "assumptions": [],
     },
+    "C09": {
+        "level": "fault_enumeration",
+        "engine": "explore (choice-tree DFS over fault points)",
+        "technique": "exhaustive fault enumeration on the real streamable client against a scripted RoundTripper under virtual time: every byte offset x termination kind of the first body, then every sequence of reconnect outcomes",
+        "claim": "for POST response streams (with/without event ids, with a priming event, retry budgets 0/1, thorough 2) and the standalone stream: the first SSE body is cut at every byte offset by a read error or a clean end of stream; each reconnect is answered ok / transport error / 503 / 404 / cut again at representative offsets, in every sequence until the client stops: notifications are delivered each once and in order, every Last-Event-ID presented is the id of the last event received completely, a successful call carries the real response and all messages, a failed call is justified (no ids, a 404, or more consecutive failed attempts than the budget), and the call never hangs (10 min virtual time)",
+        "note": "3-4 events per stream, single-line data; retry budgets above 2 and second-level cuts at every offset are outside the bound; back-off jitter is not owned in this (uninstrumented) build but does not influence the oracle",
+        "parts": [
+            {"pkg": "mcp", "mode": "plain", "test": "TestVerifC09", "shards": 16, "time_s": {"quick": 200, "thorough": 1800}},
+        ],
+        "assumptions": ["reconnect delays use package time (virtualised by the bubble)"],
+    },
     "C11": {
         "level": "model_checking",
         "technique": "explicit-state search over request histories against the real stateful handler under virtual time, with a reference session table checked after every step",
